@@ -801,6 +801,47 @@ def extract_app_sig_is_empty(repo):
     return ' ; '.join(ast.unparse(n) for n in body)
 
 
+def extract_found_reset_per_label(repo):
+    """get_app_mutations: the flag that says "an SQL file was found for this label" is set to False INSIDE the loop
+    over the labels (once per label), so that a label without an SQL file falls back to its Python module whatever
+    the labels before it had"""
+    tree = ast.parse(_src(repo, 'django_evolution/utils/evolutions.py'))
+    fn = _find_func(tree, 'get_app_mutations')
+    loops = [n for n in ast.walk(fn) if isinstance(n, ast.For) and ast.unparse(n.iter) == 'evolution_labels']
+    if len(loops) != 1:
+        raise ExtractError('get_app_mutations: expected one loop over evolution_labels')
+    loop = loops[0]
+    # the name tested by `if not <flag>:` in the loop body
+    flags = [ast.unparse(n.test.operand) for n in loop.body
+             if isinstance(n, ast.If) and isinstance(n.test, ast.UnaryOp) and isinstance(n.test.op, ast.Not)]
+    if len(flags) != 1:
+        raise ExtractError('get_app_mutations: expected one `if not <flag>:` in the loop over the labels')
+    flag = flags[0]
+    return any(isinstance(n, ast.Assign) and len(n.targets) == 1 and ast.unparse(n.targets[0]) == flag and
+               ast.unparse(n.value) == 'False' for n in loop.body)
+
+
+def extract_mutation_loads_pass_database(repo):
+    """EvolveAppTask: every call of get_app_pending_mutations / get_app_mutations (the preview's in `prepare`, the
+    execution's in `_build_batches`) hands on `database=database_name`, and `database_name` is
+    `evolver.database_name` in both methods"""
+    tree = ast.parse(_src(repo, 'django_evolution/evolve/evolve_app_task.py'))
+    cls = _find_class(tree, 'EvolveAppTask')
+    sites = []
+    for fn in [n for n in ast.walk(cls) if isinstance(n, ast.FunctionDef)]:
+        for n in ast.walk(fn):
+            if isinstance(n, ast.Call) and ast.unparse(n.func) in ('get_app_pending_mutations', 'get_app_mutations'):
+                kw = {k.arg: ast.unparse(k.value) for k in n.keywords}
+                src = [ast.unparse(a.value) for a in ast.walk(fn)
+                       if isinstance(a, ast.Assign) and len(a.targets) == 1 and
+                       ast.unparse(a.targets[0]) == kw.get('database', '')]
+                sites.append((fn.name, kw.get('database'), sorted(set(src))))
+    names = sorted(set(f for f, _, _ in sites))
+    ok = bool(sites) and {'prepare', '_build_batches'} <= set(names) and \
+        all(db == 'database_name' and src == ['evolver.database_name'] for _, db, src in sites)
+    return ok
+
+
 def extract_deleted_apps_lookup(repo):
     """ProjectSignature.diff finds the counterpart of a stored app with get_app_sig (id first, then legacy label):
     'get_app_sig'; a plain dictionary lookup by id -> 'by_id'; else 'unknown'"""
@@ -940,6 +981,14 @@ def regenerate(repo, outdir):
     parts.append('')
     parts.append('/-- Diff.is_empty(ignore_apps=False) = not deleted AND not changed ("and"), or what the source says instead -/')
     parts.append('def diffIsEmpty : String := ' + lean_str(die))
+    frl = extract_found_reset_per_label(repo)
+    flags['found_reset_per_label'] = frl
+    parts.append('/-- get_app_mutations forgets, for every label, whether an earlier label was shipped as an SQL file -/')
+    parts.append('def foundResetPerLabel : Bool := ' + ('true' if frl else 'false'))
+    mlp = extract_mutation_loads_pass_database(repo)
+    flags['mutation_loads_pass_database'] = mlp
+    parts.append('/-- EvolveAppTask.prepare (preview) and _build_batches (execution) load the mutations for evolver.database_name -/')
+    parts.append('def mutationLoadsPassDatabase : Bool := ' + ('true' if mlp else 'false'))
     aie = extract_app_sig_is_empty(repo)
     flags['app_sig_is_empty'] = aie
     parts.append('/-- what AppSignature.is_empty() looks at: "models" (no model entries left), or what the source says instead -/')
